@@ -306,6 +306,12 @@ def install_hooks(interp, policy, receiver_cls):
     interp.natives[fs.OuterFString] = mk_outer
 
 
+def _fstring_candidates_obj(ctx):
+    o = ctx.new_obj('ns', name=ctx.fresh('nested_fstring'))
+    ctx.data(o).fields['candidates'] = Native(_format_spec_candidates)
+    return o
+
+
 def _format_spec_candidates():
     raise RuntimeError('model only')
 
@@ -616,6 +622,9 @@ def fuc_list():
     out.append(('ModulePrinter', 'YieldFrom', '_yield_expr'))
     out.append(('FormattedValue', 'Lambda', 'visit_Lambda'))
     out.append(('FormattedValue', 'FormattedValue', 'get_candidates'))
+    out.append(('FormattedValue', 'Constant', 'visit_Bytes'))
+    out.append(('FormattedValue', 'Constant', 'visit_Str'))
+    out.append(('FormattedValue', 'JoinedStr', 'visit_JoinedStr'))
     return out
 
 
@@ -651,6 +660,18 @@ def task_visit(receiver, tag, method):
                 pass
         else:
             selfo = interp.instantiate(cls, [], {})
+        pt = None
+        if receiver == 'FormattedValue':
+            pr = ctx.data(selfo).fields['printer']
+            pt = z3.Int('prev_token')
+            ctx.assume(z3.And(pt >= 0, pt <= 9))
+            ctx.data(pr).fields['previous_token'] = pt
+            fsm = source.import_module(FS)
+            interp.natives[fsm.Bytes] = lambda it, a, k: Opaque('nested_bytes_literal', sort='fstring')
+            interp.natives[fsm.Str] = lambda it, a, k: Opaque('nested_str_literal', sort='fstring')
+            interp.natives[fsm.FString] = lambda it, a, k: _fstring_candidates_obj(ctx)
+            interp.natives[_format_spec_candidates] = lambda it, a, k: ctx.new_list([Opaque('nested_fstring_text', sort='str')])
+            interp.hooks['%s:FormattedValue._append' % FS] = lambda it, ff, a, k: policy.tokens.append(Tok('append', a[1], policy.stack()))
         f = interp.getattr(selfo, method)
         state = {}
         raised = None
@@ -766,6 +787,13 @@ def task_visit(receiver, tag, method):
             want = OP_SYMBOLS.get(tag)
             got = [(t.kind, t.text) for t in toks]
             ctx.check('C02/L2/visit_%s/prints-its-own-symbol' % tag, got == want, kind='post', detail='tokens %r, expected %r' % (got, want))
+        if receiver == 'FormattedValue' and method in ('visit_Bytes', 'visit_JoinedStr') and raised is None:
+            # the literal starts with a prefix letter (b / f): it must not join onto a preceding name or keyword
+            idlike = z3.Or(pt == 1, pt == 2, pt == 3)
+            spaced = len(toks) >= 1 and toks[0].kind == 'delimiter' and toks[0].text == ' '
+            ctx.check('C02/L1/FormattedValue.%s/prefix-letter-never-joins-the-previous-token' % method,
+                      z3.Implies(idlike, z3.BoolVal(spaced)), kind='post', detail='tokens %r' % (toks,))
+            ctx.check('C02/L1/FormattedValue.%s/appends-the-literal' % method, len([t for t in toks if t.kind == 'append']) == 1, kind='post')
         if receiver == 'FormattedValue' and method == 'visit_Lambda':
             ok = len(toks) >= 2 and toks[0].kind == 'delimiter' and toks[0].text == '(' and toks[-1].kind == 'delimiter' and toks[-1].text == ')'
             ctx.check('C02/L2/FormattedValue.visit_Lambda/lambda-is-parenthesised-in-a-replacement-field', ok, kind='emit', detail=repr(toks[:3]))
